@@ -43,10 +43,10 @@ func replay(out *wh.Out, line string) error {
 			if err != nil {
 				return err
 			}
-			if (strings.ContainsRune("casgeup", rune(o.kind)) && o.i >= objs) || (o.kind == 'e' && o.j >= objs) {
+			if (strings.ContainsRune("casgeupw", rune(o.kind)) && o.i >= objs) || (o.kind == 'e' && o.j >= objs) {
 				return fmt.Errorf("object index out of range in %q", t)
 			}
-			if strings.ContainsRune("nzca", rune(o.kind)) {
+			if strings.ContainsRune("nzcaw", rune(o.kind)) {
 				objs++
 			}
 			ops = append(ops, o)
